@@ -320,6 +320,42 @@ func (p *Program) pathDef(fn *Func, id *ast.Ident, obj types.Object, depth int) 
 	return "", false
 }
 
+// storedSlot: the index slot a local was stored into (X[k] = v) before its use on the current path.
+func (p *Program) storedSlot(fn *Func, id *ast.Ident, obj types.Object, depth int) (string, bool) {
+	if p.cur == nil {
+		return "", false
+	}
+	if _, isTP := obj.Type().(*types.TypeParam); !isTP { // (inside a generic helper the caller decided it is a fresh container)
+		switch obj.Type().Underlying().(type) {
+		case *types.Map, *types.Slice, *types.Pointer:
+		default:
+			return "", false
+		}
+	}
+	info := fn.Info()
+	u := p.useIndex(fn, id)
+	evs := p.cur.path.Events
+	if u > len(evs) {
+		u = len(evs)
+	}
+	for j := u - 1; j >= 0; j-- {
+		ev := evs[j]
+		if ev.Kind != EvAssign || ev.Fn != fn || ev.Tok != token.ASSIGN || len(ev.Rhs) != len(ev.Lhs) {
+			continue
+		}
+		for k, rh := range ev.Rhs {
+			i, ok := ast.Unparen(rh).(*ast.Ident)
+			if !ok || info.Uses[i] != obj {
+				continue
+			}
+			if _, isIdx := ast.Unparen(ev.Lhs[k]).(*ast.IndexExpr); isIdx {
+				return p.canon(ev.Fn, ev.Lhs[k], depth+1), true
+			}
+		}
+	}
+	return "", false
+}
+
 // inlinedResults: the call was looked into on the current path; returns the result expressions of
 // the return statement the helper took, and the helper instance they belong to.
 func (p *Program) inlinedResults(fn *Func, x ast.Expr) ([]ast.Expr, *Func, bool) {
@@ -431,6 +467,13 @@ func (p *Program) canon(fn *Func, x ast.Expr, depth int) string {
 							return s // v, ok := m[k]: v is m[k]
 						}
 						return fmt.Sprintf("%s#%d", s, ds.idx)
+					}
+					if strings.HasPrefix(s, "make(") || strings.HasPrefix(s, "&lit:") {
+						// a fresh container that was stored into a slot before this use denotes that slot
+						// (v := make(...); m[k] = v; v[e] = x  is a write to m[k][e])
+						if slot, ok := p.storedSlot(fn, v, o, depth); ok {
+							return slot
+						}
 					}
 					return s
 				case "range-key":
@@ -935,8 +978,14 @@ func (f *Func) scanDecodeTargets() {
 		fobj, _ := calleeObj(info, call).(*types.Func)
 		return fobj != nil && fobj.Name() == "DataTo" && fobj.Pkg() != nil && fobj.Pkg().Path() == pkgHCWS && len(call.Args) == 1
 	}
-	mark := func(arg ast.Expr) {
+	var mark func(arg ast.Expr)
+	mark = func(arg ast.Expr) {
 		switch v := ast.Unparen(arg).(type) {
+		case *ast.CallExpr:
+			// a conversion of the pointer (P(&req) in a generic decode helper)
+			if tv, ok := info.Types[v.Fun]; ok && tv.IsType() && len(v.Args) == 1 {
+				mark(v.Args[0])
+			}
 		case *ast.UnaryExpr:
 			if id, ok := ast.Unparen(v.X).(*ast.Ident); ok && v.Op == token.AND {
 				if obj := info.Uses[id]; obj != nil {
